@@ -508,8 +508,9 @@ static void mframe_schedule_set(enum mframe_task task_id)
 			/* Compute the next safe time to queue a DSP command */
 			fn = l1s.current_time.fn;
 			ADD_MODULO(fn, rv - 2, GSM_MAX_FN); /* -2 = worst case last dsp command */
-			if ((fn > l1s.mframe_sched.safe_fn) ||
-			    (l1s.mframe_sched.safe_fn >= GSM_MAX_FN))
+			if ((l1s.mframe_sched.safe_fn >= GSM_MAX_FN) ||
+			    ((fn != l1s.mframe_sched.safe_fn) &&
+			     (((fn + GSM_MAX_FN - l1s.mframe_sched.safe_fn) % GSM_MAX_FN) < (GSM_MAX_FN >> 1))))
 				l1s.mframe_sched.safe_fn = fn;
 		}
 	}
